@@ -10,7 +10,7 @@ PID = "C17"
 TIERS = {
     # pair: sample size of the TLC-enumerated pair family (None = all); multi: random palette configs;
     # geo: corpus windows (count, residues per window); cli: runs of clashfinder.main
-    "quick":    dict(mc="MC_Clash_quick.cfg", pair=700, multi=350, geo=(10, 10), cli=(120, 6)),
+    "quick":    dict(mc="MC_Clash_quick.cfg", pair=600, multi=300, geo=(8, 10), cli=(100, 6)),
     "thorough": dict(mc="MC_Clash_thorough.cfg", pair=None, multi=6000, geo=(60, 45), cli=(1500, 12)),
 }
 NEG = [("MC_Clash_neg_zeroocc.cfg", "InvClashSetExact", "AsImplemented occupancy default `(occupancy or 1.0)`: fails ClashSetExact"),
@@ -52,10 +52,8 @@ def build_cases(t, palette, pairs, seed):
         lib_cases.append({"id": f"pair-{k}", "kind": "pal", "st": clash.materialise(ab, k), "opts": ALL32,
                           "src": {"ab": ab, "shuffle": k}})
     # ---- multi family (random composition of the exported palettes)
-    abstracts = []
     for k in range(t["multi"]):
         ab = clash.multi_abstract(rng, palette)
-        abstracts.append(ab)
         lib_cases.append({"id": f"multi-{seed}-{k}", "kind": "pal", "st": clash.materialise(ab, k), "opts": ALL32,
                           "src": {"ab": ab, "shuffle": k}})
     # ---- corpus windows, squashed / jittered
@@ -110,7 +108,11 @@ def run(tier):
         phase["build"] = round(time.time() - t0, 1)
         recs = lib.pmap(clash.record_lib, lib_cases)
         phase["record_lib"] = round(time.time() - t0, 1)
-        cli_recs = [r for trio in lib.pmap(_rec_cli, cli_cases) for r in trio]
+        trios = lib.pmap(_rec_cli, cli_cases)
+        cli_recs = [r for trio in trios for r in trio]
+        unusable = sum(1 for trio in trios if not trio)
+        if unusable > len(cli_cases) // 4:
+            raise lib.MachineryError(f"{unusable} of {len(cli_cases)} CLI inputs have ambiguous printed names")
         phase["record_cli"] = round(time.time() - t0, 1)
         allr = recs + cli_recs
         chunks = max(1, min(lib.NCPU, len(allr) // 20))
@@ -139,11 +141,13 @@ def run(tier):
         nres = sum(len(c.get("results", [1])) for c in allr)
         cov["evaluations"] = nres
         cov["option_results_validated"] = nres
-        cov["exhaustive"] = t["pair"] is None
+        cov["exhaustive"] = False     # the pair family is complete in thorough, the other families are sampled
+        cov["pair_family_complete"] = t["pair"] is None
         cov["pair_family_size"] = len(pairs)
         cov["pair_boundary_cases_not_decided_by_statement"] = dropped
         cov["cases_by_kind"] = {k: sum(1 for c in allr if c["id"].startswith(k)) for k in ("pair", "multi", "geo", "main")}
         cov["listed_clashes_total"] = sum(len(r["list"]) for c in allr for r in c.get("results", []))
+        cov["cli_inputs_unusable_ambiguous_names"] = unusable
         cov["cli_runs_with_clashes"] = sum(1 for c in cli_recs if c["kind"] == "cli" and c["atomlines"])
         cov["cli_runs_with_two_different_sums_in_a_chain_pair"] = sum(
             1 for c in cli_recs if c["kind"] == "cli" and any(
